@@ -45,6 +45,9 @@ def setup(J):
             for size in ((1,) if q else (1, 65537)):
                 jobs.append({"id": f"C17-n1-s{size}-m2-absolute-stream-path", "prop": "C17", "kind": "stream", "mode": "delay", "delay": 1, "budget": J.budget(tier, 30, 200), "oracles": [], "events_dep": False, "force_all": -1,
                              "args": {"n": "1", "size": str(size), "max": "2", "absout": "1"}})
+            # ... and with a path that steps through a parent directory (sub/../name.stream)
+            jobs.append({"id": "C17-n1-s1-m2-stream-path-with-parent-step", "prop": "C17", "kind": "stream", "mode": "delay", "delay": 1, "budget": J.budget(tier, 30, 200), "oracles": [], "events_dep": False, "force_all": -1,
+                         "args": {"n": "1", "size": "1", "max": "2", "midparent": "1"}})
             # two streamed items in flight: a pass-through process notes the order in which they leave the producer
             for size, mx in ((1, 4),) if q else ((1, 4), (65537, 4), (1, 5)):
                 jobs.append({"id": f"C17-n2-s{size}-m{mx}-order", "prop": "C17", "kind": "stream", "mode": "delay", "delay": 1, "budget": J.budget(tier, 40, 300), "oracles": [], "events_dep": False, "force_all": -1,
